@@ -122,6 +122,7 @@ fn show(n: &MName) -> String {
 fn label_id(l: &str) -> u64 {
     VOCAB.iter().position(|v| *v == l).unwrap_or_else(|| panic!("label {l} not in VOCAB")) as u64
 }
+#[allow(dead_code)]
 fn coq_name(n: &MName) -> String {
     coq_list(n.iter().map(|l| label_id(l).to_string()))
 }
@@ -703,6 +704,11 @@ enum Edit {
     IslandNsec,
     /// no answers; authority := the genuine DS RRset (signed) + a forged NSEC at the same name
     DsPlusForgedNsec,
+    /// answers := one forged DNSKEY (random key bytes) whose algorithm and key tag equal those of a
+    /// key the parent's DS RRset covers; no RRSIG (attack script: only the digest tells them apart)
+    DnskeyTagForge,
+    /// the first non-signature answer record gets forged RDATA, its RRSIG stays (attack script)
+    ForgeKeepSig,
 }
 
 #[derive(Clone, Debug)]
@@ -949,6 +955,56 @@ fn apply_edit(cx: &mut Ctx, f: &Fault, mut r: Resp) -> Resp {
                 }
                 _ => false,
             });
+        }
+        Edit::DnskeyTagForge => {
+            let w = cx.w;
+            // a genuine key of this owner that a genuine DS covers
+            let target = r.answers.iter().find_map(|x| match &x.data {
+                RData::DNSSEC(DNSSECRData::DNSKEY(k)) => {
+                    let owner = mname(&x.name);
+                    let covered = w.genuine_set(&owner, 43).map_or(false, |ds| {
+                        ds.recs.iter().any(|d| match &d.data {
+                            RData::DNSSEC(DNSSECRData::DS(d)) => {
+                                k.to_digest(&x.name, d.digest_type()).map(|h| h.as_ref() == d.digest()).unwrap_or(false)
+                            }
+                            _ => false,
+                        })
+                    });
+                    if covered { Some((x.name.clone(), k.clone())) } else { None }
+                }
+                _ => None,
+            });
+            if let Some((name, k)) = target {
+                let want = key_tag(&rdata_bytes(&RData::DNSSEC(DNSSECRData::DNSKEY(k.clone()))));
+                let n = k.public_key().public_bytes().len();
+                let mut pk: Vec<u8> = (0..n).map(|i| (i as u8).wrapping_mul(37).wrapping_add(11)).collect();
+                // fix the tag with the last two bytes (the checksum is linear in 16-bit words)
+                for hi in 0..=255u8 {
+                    let mut done = false;
+                    for lo in 0..=255u8 {
+                        pk[n - 2] = hi;
+                        pk[n - 1] = lo;
+                        let cand = DNSKEY::with_flags(k.flags(), PublicKeyBuf::new(pk.clone(), k.algorithm()));
+                        if key_tag(&rdata_bytes(&RData::DNSSEC(DNSSECRData::DNSKEY(cand)))) == want {
+                            done = true;
+                            break;
+                        }
+                    }
+                    if done {
+                        break;
+                    }
+                }
+                let forged = DNSKEY::with_flags(k.flags(), PublicKeyBuf::new(pk, k.algorithm()));
+                r.answers = vec![Record::from_rdata(name, TTL, RData::DNSSEC(DNSSECRData::DNSKEY(forged)))];
+                r.authorities.clear();
+            }
+        }
+        Edit::ForgeKeepSig => {
+            if let Some(x) = r.answers.iter_mut().find(|x| x.record_type() != RecordType::RRSIG) {
+                if let Some(n) = alter_record(cx, &x.clone(), 7) {
+                    *x = n;
+                }
+            }
         }
         Edit::IslandNsec => {
             let island = nm("island.tld.");
@@ -1234,9 +1290,12 @@ fn nsec_table(q: &MName, qtype: u16, r: &Resp) -> Vec<(bool, Vec<usize>, u8)> {
 
 /// consumer's view: DnssecSummary-like classification of the validated message
 /// 0 secure, 1 insecure, 2 bogus
+#[allow(dead_code)]
 fn summary(recs: &[Record]) -> u8 {
     let mut all = None;
-    for r in recs {
+    // signature records are left out: only the RRSIG actually used gets a proof, so a second valid
+    // RRSIG (two active ZSKs) stays Indeterminate and would make every such answer "insecure"
+    for r in recs.iter().filter(|r| r.record_type() != RecordType::RRSIG) {
         match r.proof {
             Proof::Secure => {
                 all.get_or_insert(true);
@@ -1260,6 +1319,9 @@ fn same_rr(a: &Record, b: &Record) -> bool {
 fn secure_is_genuine(w: &World, sec: &[Record]) -> Option<String> {
     for r in sec.iter().filter(|r| r.proof == Proof::Secure) {
         let owner = mname(&r.name);
+        if w.zones.iter().any(|z| z.attacker && is_anc_or_self(&z.apex, &owner)) {
+            continue; // the adversary's own, properly delegated namespace: whatever its keys sign is "genuine"
+        }
         if let RData::DNSSEC(DNSSECRData::RRSIG(s)) = &r.data {
             let tc = u16::from(s.input().type_covered);
             let ok = w.genuine_set(&owner, tc).map_or(false, |g| g.sigs.iter().any(|x| same_rr(x, r)));
@@ -1296,23 +1358,46 @@ fn relevant<'a>(recs: &'a [Record], q: &MName, qtype: u16) -> Vec<&'a Record> {
     recs.iter().filter(|r| mname(&r.name) == *q && u16::from(r.record_type()) == qtype).collect()
 }
 
+/// status of the zone that holds (owner, type) in the hierarchy as built: true = signed with a
+/// supported algorithm along the whole chain
+fn name_is_secure(w: &World, owner: &MName, t: u16) -> bool {
+    // every zone from the root down to the one holding the name must be signed and supported
+    let zi = w.zone_for(owner, t);
+    let apex = &w.zones[zi].apex;
+    w.zones.iter().filter(|z| is_anc_or_self(&z.apex, apex)).all(|z| z.signed && !z.unsupported)
+}
+
+/// Insecure is legitimate only for names of zones that really are insecure
+fn insecure_is_legit(w: &World, sec: &[Record]) -> Option<String> {
+    for r in sec.iter().filter(|r| r.proof == Proof::Insecure) {
+        let owner = mname(&r.name);
+        let t = match &r.data {
+            RData::DNSSEC(DNSSECRData::RRSIG(s)) => u16::from(s.input().type_covered),
+            d => u16::from(d.record_type()),
+        };
+        if w.zones.iter().any(|z| z.attacker && is_anc_or_self(&z.apex, &owner)) {
+            continue;
+        }
+        if name_is_secure(w, &owner, t) {
+            return Some(format!(
+                "record {} {} {} is reported Insecure although every zone on its chain is signed: silently insecure",
+                r.name,
+                r.record_type(),
+                r.data
+            ));
+        }
+    }
+    None
+}
+
 /// full oracle; `genuine` = observation of the same query on the untampered hierarchy
 fn oracle(w: &World, q: &MName, qtype: u16, tampered: bool, genuine: &Obs, obs: &Obs) -> Option<String> {
     if let Obs::Panic(p) = obs {
         return Some(format!("validator panicked: {p}"));
     }
-    let (rc, ans, auth) = match obs {
-        Obs::Ok(rc, a, u) => (*rc, a, u),
-        Obs::Nsec(_, _, a, u) => {
-            // an error, but the message it carries must not show forged data as Secure either
-            if let Some(e) = secure_is_genuine(w, a).or_else(|| secure_is_genuine(w, u)) {
-                return Some(e);
-            }
-            if !tampered {
-                return Some("untampered hierarchy: query ended in an NSEC error".to_string());
-            }
-            return None;
-        }
+    let (ok, rc, ans, auth) = match obs {
+        Obs::Ok(rc, a, u) => (true, *rc, a, u),
+        Obs::Nsec(_, rc, a, u) => (false, *rc, a, u),
         _ => {
             if !tampered {
                 return Some("untampered hierarchy: query ended in an error".to_string());
@@ -1320,64 +1405,64 @@ fn oracle(w: &World, q: &MName, qtype: u16, tampered: bool, genuine: &Obs, obs: 
             return None;
         }
     };
+    // per-record statements (also for the message carried by an NSEC error)
     if let Some(e) = secure_is_genuine(w, ans).or_else(|| secure_is_genuine(w, auth)) {
         return Some(e);
     }
-    // class of the genuine outcome
-    let Obs::Ok(grc, gans, gauth) = genuine else {
-        return None;
-    };
-    let non_soa = |v: &[Record]| -> Vec<Record> { v.iter().filter(|r| r.record_type() != RecordType::SOA).cloned().collect() };
-    let gsum = if !gans.is_empty() { summary(gans) } else { summary(&non_soa(gauth)) };
-    if !tampered {
-        // sanity / completeness on the honest hierarchy: the zone's status is what was built
-        let zi = w.zone_for(q, qtype);
-        let z = &w.zones[zi];
-        let expect = if z.signed && !z.unsupported { 0 } else { 1 };
-        if gsum != expect {
-            return Some(format!("untampered hierarchy: summary {gsum} but the zone's status is {expect}"));
+    if let Some(e) = insecure_is_legit(w, ans).or_else(|| insecure_is_legit(w, auth)) {
+        return Some(e);
+    }
+    if !ok {
+        if !tampered {
+            return Some("untampered hierarchy: query ended in an NSEC error".to_string());
         }
         return None;
     }
-    if gsum != 0 {
-        return None; // insecure zones: only "Secure => genuine" applies
-    }
-    // the chain to this name is signed: the outcome must be a rejection or harmless
-    let sum = if !ans.is_empty() { summary(ans) } else { summary(&non_soa(auth)) };
-    if sum == 2 {
-        return None;
-    }
+    let secure_chain = name_is_secure(w, q, qtype);
+    let secure_q = secure_chain && !w.zones.iter().any(|z| z.attacker && is_anc_or_self(&z.apex, q));
     let rel = relevant(ans, q, qtype);
-    let grel = relevant(gans, q, qtype);
-    if !ans.is_empty() {
-        // positive message accepted by a consumer: every non-signature answer record must be Secure
-        if let Some(r) = ans.iter().find(|r| r.record_type() != RecordType::RRSIG && r.proof != Proof::Secure) {
-            return Some(format!(
-                "signed chain tampered, yet the message is accepted with answer {} {} {} marked {:?} (summary {}): silently insecure",
-                r.name,
-                r.record_type(),
-                r.data,
-                r.proof,
-                sum
-            ));
+    let want = if secure_chain { Proof::Secure } else { Proof::Insecure };
+    if !tampered {
+        // completeness on the honest hierarchy
+        let Obs::Ok(_, gans, gauth) = genuine else { return Some("untampered run is not Ok".into()) };
+        let _ = (gans, gauth);
+        if let Some(r) = rel.iter().find(|r| r.proof != want) {
+            return Some(format!("untampered hierarchy: answer {} {} has proof {:?}, expected {:?}", r.name, r.record_type(), r.proof, want));
         }
-        if rel.len() != grel.len() || !rel.iter().all(|r| grel.iter().any(|g| same_rr(r, g))) {
-            if grel.is_empty() && rel.is_empty() {
-                return None; // answers about other names only: a consumer finds nothing for its question
+        if rel.is_empty() {
+            if let Some(r) = auth.iter().find(|r| r.record_type() != RecordType::RRSIG && r.proof != want) {
+                return Some(format!("untampered hierarchy: authority {} {} has proof {:?}, expected {:?}", r.name, r.record_type(), r.proof, want));
             }
-            return Some(format!("accepted answer for the question differs from the genuine one ({} vs {} records)", rel.len(), grel.len()));
         }
         return None;
     }
-    // negative message accepted
-    if !gans.is_empty() {
-        return Some(format!("signed chain tampered: existing data denied and accepted (rcode {rc}, summary {sum})"));
+    if !secure_q {
+        return None;
+    }
+    // the chain to the question is signed and something was tampered with: the message the validator let
+    // through must be a rejection (some record Bogus in the section a consumer summarises) or harmless
+    let section: &Vec<Record> = if !ans.is_empty() { ans } else { auth };
+    if section.iter().any(|r| r.proof == Proof::Bogus) {
+        return None;
+    }
+    if !rel.is_empty() {
+        if let Some(r) = rel.iter().find(|r| r.proof != Proof::Secure) {
+            return Some(format!("signed chain tampered, yet answer {} {} {} is let through as {:?}", r.name, r.record_type(), r.data, r.proof));
+        }
+        return None; // Secure => genuine and complete, checked above
+    }
+    // nothing for the question: acceptable only as the genuine, proven denial
+    let Obs::Ok(grc, gans, gauth) = genuine else { return None };
+    if !relevant(gans, q, qtype).is_empty() {
+        return Some(format!("signed chain tampered: existing data is missing from an accepted message (rcode {rc}) and nothing is marked Bogus"));
     }
     if rc != *grc {
         return Some(format!("accepted negative answer with rcode {rc}, genuine rcode {grc}"));
     }
-    if sum != 0 {
-        return Some(format!("signed chain tampered, yet an unproven negative answer is accepted (summary {sum}): silently insecure"));
+    for g in gauth.iter().filter(|g| matches!(g.record_type(), RecordType::NSEC | RecordType::NSEC3)) {
+        if !auth.iter().any(|x| same_rr(x, g) && x.proof == Proof::Secure) {
+            return Some("signed chain tampered, yet a negative answer without the genuine denial records is accepted: silently insecure".to_string());
+        }
     }
     None
 }
@@ -1386,37 +1471,98 @@ fn oracle(w: &World, q: &MName, qtype: u16, tampered: bool, genuine: &Obs, obs: 
 // known-finding classes (narrow, decidable on the consulted responses)
 // ------------------------------------------------------------------------------------------
 
+fn really_signed(w: &World, extra: &HashMap<Vec<u8>, SigProv>, sec: &[Record], x: &Record) -> bool {
+    // some RRSIG of the section covering x's RRset is a real signature over exactly the section's RRset
+    let t = u16::from(x.record_type());
+    let mut rd: Vec<Vec<u8>> =
+        sec.iter().filter(|y| y.name == x.name && y.record_type() == x.record_type()).map(|y| rdata_bytes(&y.data)).collect();
+    rd.sort();
+    sec.iter().any(|y| match &y.data {
+        RData::DNSSEC(DNSSECRData::RRSIG(s)) if y.name == x.name && u16::from(s.input().type_covered) == t => {
+            w.sig_prov.get(s.sig()).or_else(|| extra.get(s.sig())).map_or(false, |p| p.rdatas == rd)
+        }
+        _ => false,
+    })
+}
+
 fn known_class(w: &World, log: &BTreeMap<(MName, u16), Resp>, extra: &HashMap<Vec<u8>, SigProv>) -> Option<String> {
-    // K1: a section with an RRSIG covering DNSKEY at an owner that has no DNSKEY record in it
+    // (K1, the panic on an orphan DNSKEY RRSIG, was fixed in /repo fed49c5: a panic is a violation again)
+    // K2: a response whose answer section is non-empty but holds no record of the type asked for at the
+    // name asked for (DS query answered with junk; answer made of orphan RRSIGs only; ...): accepted
+    // without any denial proof
+    for ((n, t), r) in log {
+        if r.kind == 0
+            && !r.answers.is_empty()
+            && !r.answers.iter().any(|x| u16::from(x.record_type()) == *t && mname(&x.name) == *n)
+        {
+            return Some("C07-K2-nonempty-answer-needs-no-denial".into());
+        }
+    }
+    // K3: an RRSIG whose signer name is neither the owner nor an ancestor of the owner (the validator
+    // fetches that zone's keys anyway: a key of any securely delegated zone signs for any name, and the
+    // keys of any insecure zone make the RRset "Insecure")
     for r in log.values() {
-        for sec in [&r.answers, &r.authorities] {
-            for x in sec {
-                if let RData::DNSSEC(DNSSECRData::RRSIG(s)) = &x.data {
-                    if s.input().type_covered == RecordType::DNSKEY
-                        && !sec.iter().any(|y| y.record_type() == RecordType::DNSKEY && y.name == x.name)
-                    {
-                        return Some("C07-K1-orphan-dnskey-rrsig-panic".into());
-                    }
+        for x in r.answers.iter().chain(r.authorities.iter()) {
+            if let RData::DNSSEC(DNSSECRData::RRSIG(s)) = &x.data {
+                if !is_anc_or_self(&mname(&s.input().signer_name), &mname(&x.name)) {
+                    return Some("C07-K3-signer-not-ancestor".into());
                 }
             }
         }
     }
-    // K2: response to a DS query whose answer section is non-empty but has no DS record
-    for ((n, t), r) in log {
-        if *t == 43 && r.kind == 0 && !r.answers.is_empty() && !r.answers.iter().any(|x| x.record_type() == RecordType::DS) {
-            let _ = n;
-            return Some("C07-K2-ds-absence-by-nonempty-answer".into());
+    // K4: a DNSKEY RRset without a real signature over it, every key of which is a trust anchor's key
+    // or matched by a genuine DS record: accepted key by key (subset of the real key set / an anchor
+    // key under a foreign name)
+    for r in log.values() {
+        for x in r.answers.iter().filter(|x| x.record_type() == RecordType::DNSKEY) {
+            if really_signed(w, extra, &r.answers, x) {
+                continue;
+            }
+            let all_ok = r.answers.iter().filter(|y| y.record_type() == RecordType::DNSKEY && y.name == x.name).all(|y| {
+                let RData::DNSSEC(DNSSECRData::DNSKEY(k)) = &y.data else { return false };
+                let anchored = w.anchors.iter().any(|(a, p)| *a == u8::from(k.algorithm()) && p == k.public_key().public_bytes());
+                let ds_ok = w.genuine_set(&mname(&y.name), 43).map_or(false, |ds| {
+                    ds.recs.iter().any(|d| match &d.data {
+                        RData::DNSSEC(DNSSECRData::DS(d)) => {
+                            k.to_digest(&y.name, d.digest_type()).map(|h| h.as_ref() == d.digest()).unwrap_or(false)
+                        }
+                        _ => false,
+                    })
+                });
+                anchored || ds_ok
+            });
+            if all_ok {
+                return Some("C07-K4-dnskey-set-accepted-without-signature".into());
+            }
         }
     }
-    // K3: a really verifying signature whose signer is not the owner's zone or an ancestor of the owner
-    for r in log.values() {
-        for x in r.answers.iter().chain(r.authorities.iter()) {
-            if let RData::DNSSEC(DNSSECRData::RRSIG(s)) = &x.data {
-                if w.sig_prov.contains_key(s.sig()) || extra.contains_key(s.sig()) {
-                    if !is_anc_or_self(&mname(&s.input().signer_name), &mname(&x.name)) {
-                        return Some("C07-K3-signer-not-ancestor".into());
-                    }
-                }
+    for ((n, t), r) in log {
+        let zq = w.zone_for(n, *t);
+        // K5: an NSEC/NSEC3 record without a real signature sits in an authority section next to a really
+        // signed RRset with the same owner name (the NSEC is used because "its name has a Secure record")
+        for x in &r.authorities {
+            if matches!(x.record_type(), RecordType::NSEC | RecordType::NSEC3)
+                && !really_signed(w, extra, &r.authorities, x)
+                && r.authorities.iter().any(|y| {
+                    y.name == x.name
+                        && y.record_type() != x.record_type()
+                        && y.record_type() != RecordType::RRSIG
+                        && really_signed(w, extra, &r.authorities, y)
+                })
+            {
+                return Some("C07-K5-unsigned-nsec-beside-secure-rrset".into());
+            }
+        }
+        // K6: the authority section of a response about a signed zone consists of records owned by an
+        // insecure (unsigned / unsupported-algorithm) zone of the hierarchy
+        let qz = &w.zones[zq];
+        if qz.signed && !qz.unsupported && !r.authorities.is_empty() && r.answers.is_empty() {
+            let foreign = |x: &Record| {
+                let o = mname(&x.name);
+                w.zones.iter().any(|z| (!z.signed || z.unsupported) && is_anc_or_self(&z.apex, &o))
+            };
+            if r.authorities.iter().all(foreign) {
+                return Some("C07-K6-foreign-insecure-authority".into());
             }
         }
     }
@@ -1546,7 +1692,17 @@ fn case(seed: u64, index: u64) -> CaseOut {
             // the main answer replaced by forged, unsigned data
             faults.push(Fault { q: q.clone(), qtype, edit: Edit::JunkAnswer });
         };
-        match r.below(7) {
+        match r.below(9) {
+            7 => {
+                faults.push(Fault { q: zone_of_q.clone(), qtype: 48, edit: Edit::DnskeyTagForge });
+                kind = "atk-dnskey-tag-forge".into();
+            }
+            8 => {
+                // the zone's keys are made Bogus (one key byte flipped), the answer is forged under its old RRSIG
+                faults.push(Fault { q: zone_of_q.clone(), qtype: 48, edit: Edit::Alter(0, 0, 4) });
+                faults.push(Fault { q: q.clone(), qtype, edit: Edit::ForgeKeepSig });
+                kind = "atk-bogus-keys".into();
+            }
             0 => {
                 faults.push(Fault { q: zone_of_q.clone(), qtype: 43, edit: Edit::JunkAnswer });
                 forged_main(&mut faults);
@@ -1603,7 +1759,7 @@ fn case(seed: u64, index: u64) -> CaseOut {
 
     // ---- Coq case (stream of 32-bit numbers, see coq/C07/Check.v) ----
     let mut it = Intern::default();
-    let mut t: Vec<u32> = vec![];
+    let mut t: Vec<u32> = vec![0];
     t.push(w.anchors.len() as u32);
     for (a, p) in &w.anchors {
         t.push(it.pk(*a, p) as u32);
@@ -1671,7 +1827,15 @@ fn case(seed: u64, index: u64) -> CaseOut {
             format!("PANIC {m}")
         }
     };
-    let bytes: Vec<u8> = t.iter().flat_map(|x| x.to_be_bytes()).collect();
+    let mut bytes: Vec<u8> = vec![];
+    for x in &t {
+        if *x < 255 {
+            bytes.push(*x as u8);
+        } else {
+            bytes.push(255);
+            bytes.extend(x.to_be_bytes());
+        }
+    }
     let coq = format!("CaseP {}", coq_pb(&bytes));
     let ftext = faults
         .iter()
@@ -1700,11 +1864,225 @@ fn case(seed: u64, index: u64) -> CaseOut {
     }
 }
 
+// ------------------------------------------------------------------------------------------
+// server clause: the real request front door (VerifContext hook) + Catalog + a mock external
+// (forwarding) zone handler that hands back answer records carrying chosen proofs
+// ------------------------------------------------------------------------------------------
+
+mod srv {
+    use std::net::SocketAddr;
+    use std::sync::{Arc, Mutex};
+
+    use futures_util::StreamExt;
+    use hickory_net::proto::dnssec::Proof;
+    use hickory_net::proto::op::{Edns, Message, MessageType, OpCode, Query, SerialMessage};
+    use hickory_net::proto::rr::rdata::A;
+    use hickory_net::proto::rr::{LowerName, Name, RData, Record, RecordType};
+    use hickory_net::xfer::Protocol;
+    use hickory_net::BufDnsStreamHandle;
+    use hickory_server::dnssec::NxProofKind;
+    use hickory_server::server::{RequestInfo, VerifContext};
+    use hickory_server::zone_handler::{
+        AuthLookup, AxfrPolicy, Catalog, LookupControlFlow, LookupOptions, LookupRecords, Nsec3QueryInfo, ZoneHandler, ZoneType,
+    };
+
+    pub struct Mock {
+        origin: LowerName,
+        pub answers: Arc<Mutex<Vec<Record>>>,
+    }
+
+    #[async_trait::async_trait]
+    impl ZoneHandler for Mock {
+        fn zone_type(&self) -> ZoneType {
+            ZoneType::External
+        }
+        fn axfr_policy(&self) -> AxfrPolicy {
+            AxfrPolicy::Deny
+        }
+        fn can_validate_dnssec(&self) -> bool {
+            true
+        }
+        fn origin(&self) -> &LowerName {
+            &self.origin
+        }
+        async fn lookup(
+            &self,
+            _name: &LowerName,
+            _rtype: RecordType,
+            _request_info: Option<&RequestInfo<'_>>,
+            _lookup_options: LookupOptions,
+        ) -> LookupControlFlow<AuthLookup> {
+            let v = self.answers.lock().unwrap().clone();
+            LookupControlFlow::Continue(Ok(AuthLookup::answers(LookupRecords::Section(v), None)))
+        }
+        async fn nsec_records(&self, _name: &LowerName, _lookup_options: LookupOptions) -> LookupControlFlow<AuthLookup> {
+            LookupControlFlow::Continue(Ok(AuthLookup::default()))
+        }
+        async fn nsec3_records(&self, _info: Nsec3QueryInfo<'_>, _lookup_options: LookupOptions) -> LookupControlFlow<AuthLookup> {
+            LookupControlFlow::Continue(Ok(AuthLookup::default()))
+        }
+        fn nx_proof_kind(&self) -> Option<&NxProofKind> {
+            None
+        }
+        fn metrics_label(&self) -> &'static str {
+            "mock"
+        }
+    }
+
+    pub fn setup() -> (VerifContext<Catalog>, Arc<Mutex<Vec<Record>>>) {
+        let origin = Name::parse("fwd.test.", None).unwrap();
+        let answers = Arc::new(Mutex::new(vec![]));
+        let mock = Mock { origin: LowerName::new(&origin), answers: answers.clone() };
+        let mut cat = Catalog::new();
+        cat.upsert(LowerName::new(&origin), vec![Arc::new(mock) as Arc<dyn ZoneHandler>]);
+        (VerifContext::new(cat, [], []), answers)
+    }
+
+    pub fn proof_of(p: u8) -> Proof {
+        match p {
+            0 => Proof::Secure,
+            1 => Proof::Insecure,
+            2 => Proof::Bogus,
+            _ => Proof::Indeterminate,
+        }
+    }
+
+    /// (AD, rcode, number of answers) of the reply
+    pub fn ask(
+        ctx: &VerifContext<Catalog>,
+        store: &Arc<Mutex<Vec<Record>>>,
+        rt: &tokio::runtime::Runtime,
+        proofs: &[u8],
+        ad: bool,
+        cd: bool,
+        do_: bool,
+        id: u16,
+    ) -> Option<(bool, u16, usize)> {
+        let name = Name::parse("www.fwd.test.", None).unwrap();
+        {
+            let mut g = store.lock().unwrap();
+            g.clear();
+            for (i, p) in proofs.iter().enumerate() {
+                let mut r = Record::from_rdata(name.clone(), 300, RData::A(A::new(10, 0, 0, i as u8)));
+                r.proof = proof_of(*p);
+                g.push(r);
+            }
+        }
+        let mut m = Message::new(id, MessageType::Query, OpCode::Query);
+        m.metadata.recursion_desired = true;
+        m.metadata.authentic_data = ad;
+        m.metadata.checking_disabled = cd;
+        m.add_query(Query::new(name, RecordType::A));
+        let mut e = Edns::new();
+        e.set_max_payload(1232);
+        e.set_version(0);
+        if do_ {
+            e.enable_dnssec();
+        }
+        m.set_edns(e);
+        let bytes = m.to_vec().unwrap();
+        let src: SocketAddr = "192.0.2.7:5300".parse().unwrap();
+        let (handle, mut rx) = BufDnsStreamHandle::new(src);
+        rt.block_on(async {
+            ctx.handle_raw_request(SerialMessage::new(bytes, src), Protocol::Tcp, handle).await;
+        });
+        let reply = rt.block_on(async { rx.next().await })?.into_parts().0;
+        let d = Message::from_vec(&reply).ok()?;
+        Some((d.metadata.authentic_data, u16::from(d.metadata.response_code), d.answers.len()))
+    }
+}
+
+const SRV_BASE: u64 = 1 << 40;
+
+thread_local! {
+    static SRV: (hickory_server::server::VerifContext<hickory_server::zone_handler::Catalog>, Arc<Mutex<Vec<Record>>>, tokio::runtime::Runtime) = {
+        let (c, s) = srv::setup();
+        (c, s, tokio::runtime::Builder::new_current_thread().enable_all().build().unwrap())
+    };
+}
+
+/// server case: proofs of 0..5 answer records (exhaustive over small vectors by index, then random), AD/CD/DO bits
+fn srv_case(seed: u64, index: u64) -> CaseOut {
+    let mut r = Rng::for_case(seed, index);
+    let k = index - SRV_BASE;
+    // k < 8 * (1 + 4 + 16 + 64) enumerates all proof vectors of length <= 3 with all flag combinations
+    let (proofs, flags): (Vec<u8>, u64) = if k < 8 * 85 {
+        let f = k % 8;
+        let mut v = k / 8;
+        let mut len = 0;
+        let mut cnt = 1;
+        while v >= cnt {
+            v -= cnt;
+            cnt *= 4;
+            len += 1;
+        }
+        ((0..len).map(|i| ((v >> (2 * i)) & 3) as u8).collect(), f)
+    } else {
+        let n = r.range(1, 5) as usize;
+        ((0..n).map(|_| if r.chance(3, 5) { 0 } else { r.below(4) as u8 }).collect(), r.below(8))
+    };
+    let (ad, cd, do_) = (flags & 1 != 0, flags & 2 != 0, flags & 4 != 0);
+    let obs = SRV.with(|(ctx, store, rt)| {
+        let ctx = std::panic::AssertUnwindSafe(ctx);
+        let store = std::panic::AssertUnwindSafe(store);
+        let rt = std::panic::AssertUnwindSafe(rt);
+        let p = proofs.clone();
+        guard(move || srv::ask(&ctx, &store, &rt, &p, ad, cd, do_, index as u16))
+    });
+    let text_in = format!("server proofs={:?} ad={} cd={} do={}", proofs, ad, cd, do_);
+    let mut t: Vec<u32> = vec![1, proofs.len() as u32];
+    t.extend(proofs.iter().map(|p| *p as u32));
+    t.extend([ad as u32, cd as u32, do_ as u32]);
+    let (otext, fail) = match &obs {
+        Ok(Some((oad, rc, n))) => {
+            t.extend([*oad as u32, (*rc == 2) as u32, (*n == proofs.len()) as u32]);
+            let mut fail = None;
+            if *oad && (proofs.is_empty() || proofs.iter().any(|p| *p != 0)) {
+                fail = Some(format!("AD set although the answer records have proofs {:?}", proofs));
+            } else if !cd && proofs.contains(&2) && (*rc != 2 || *n != 0) {
+                fail = Some(format!("Bogus answer with CD=0 but rcode {rc} and {n} answers returned"));
+            } else if *rc == 2 && !(proofs.contains(&2) && !cd) {
+                fail = Some("SERVFAIL without a Bogus record / with CD=1".to_string());
+            } else if *rc != 2 && *n != proofs.len() {
+                fail = Some(format!("{} answers returned of {}", n, proofs.len()));
+            }
+            (format!("ad={} rcode={} answers={}", oad, rc, n), fail)
+        }
+        Ok(None) => {
+            t.extend([9, 9, 9]);
+            ("no reply".to_string(), Some("no reply".to_string()))
+        }
+        Err(p) => {
+            t.extend([9, 9, 9]);
+            (format!("PANIC {p}"), Some(format!("server panicked: {p}")))
+        }
+    };
+    let mut bytes: Vec<u8> = vec![];
+    for x in &t {
+        if *x < 255 {
+            bytes.push(*x as u8);
+        } else {
+            bytes.push(255);
+            bytes.extend(x.to_be_bytes());
+        }
+    }
+    CaseOut {
+        index,
+        coq: format!("CaseP {}", coq_pb(&bytes)),
+        text: format!("seed={seed} index={index} {text_in} => {otext}"),
+        key: text_in,
+        nontrivial: !proofs.is_empty(),
+        kind: "server".to_string(),
+        oracle_fail: fail,
+        known: None,
+    }
+}
+
 fn main() {
     quiet_panics();
     let args = parse_args();
     if let Some((seed, index)) = args.replay {
-        let c = case(seed, index);
+        let c = if index >= SRV_BASE { srv_case(seed, index) } else { case(seed, index) };
         println!("{}", c.text);
         println!("COQ {}", c.coq);
         if let Some(f) = c.oracle_fail {
@@ -1715,16 +2093,26 @@ fn main() {
         }
         return;
     }
+    // fewer, larger shards: loading the Coq libraries dominates the cost of a shard
+    if std::env::var("VPH_SHARD").is_err() {
+        std::env::set_var("VPH_SHARD", if args.n <= 1200 { "100" } else { "400" });
+    }
     let mut cases = vec![];
     for index in 0..args.n {
         cases.push(case(args.seed, index));
+    }
+    // server clause: all proof vectors of length <= 3 x flags in thorough, a slice of them + random in quick
+    let n_srv = if args.tier == "thorough" { 8 * 85 + args.n / 8 } else { args.n / 4 };
+    for i in 0..n_srv {
+        let k = if args.tier == "thorough" { i } else if i % 2 == 0 { (i * 7 + args.seed) % (8 * 85) } else { 8 * 85 + i };
+        cases.push(srv_case(args.seed, SRV_BASE + k));
     }
     emit(
         "C07",
         "C07",
         &args,
         &cases,
-        "hierarchy (8 variants of root/tld/{leaf signed, island unsigned, evil signed adversary-owned, unsup algorithm-16}; CSK / KSK+ZSK / 3 keys; Ed25519 / P-256; anchor at root or root+tld) x 12 top-level queries x {genuine, one random record-level fault, two faults, 7 targeted multi-record attack scripts} placed on any response the validator consults; real signatures; non-trivial = validator consulted at least two upstream responses; distinct by (hierarchy, query, faults).",
+        "hierarchy (8 variants of root/tld/{leaf signed, island unsigned, evil signed adversary-owned, unsup algorithm-16}; CSK / KSK+ZSK / 3 keys; Ed25519 / P-256; anchor at root or root+tld) x 12 top-level queries x {genuine, one random record-level fault, two faults, 9 targeted multi-record attack scripts} placed on any response the validator consults; real signatures; non-trivial = validator consulted at least two upstream responses; distinct by (hierarchy, query, faults). Server family: proofs of 0..5 answer records x AD/CD/DO through the real front door + Catalog + a mock external zone handler (all vectors of length <= 3 in thorough).",
         serde_json::json!({"hierarchies": N_HIER}),
     );
 }
